@@ -8,6 +8,8 @@ pub fn run(which: &str) {
         "c14_sites" => crate::c14::run(),
         "c13_inputs" => c13_inputs(),
         "c02_values" => crate::c02::run(),
+        "c20_history" => crate::c20::run(),
+        "c05_fee" => crate::c05::run(),
         _ => panic!("unknown scenario {which}"),
     }
 }
